@@ -15,7 +15,8 @@ def GotBlock (g : Geom) (gh : Gh) (order frame : Nat) (gh' : Gh) : Prop :=
   if order < g.hugeOrder then
     frame % 2 ^ order = 0 ∧ gh' = gh.addS frame (2 ^ order) ∧ ∀ f, inBlockF frame (2 ^ order) f = true → gh.ownS f = false
   else
-    frame % g.hugeFrames = 0 ∧ (frame / g.hugeFrames) % g.treeHuge + 2 ^ (order - g.hugeOrder) ≤ g.treeHuge ∧
+    (frame % g.hugeFrames = 0 ∧ (frame / g.hugeFrames) % 2 ^ (order - g.hugeOrder) = 0) ∧
+    (frame / g.hugeFrames) % g.treeHuge + 2 ^ (order - g.hugeOrder) ≤ g.treeHuge ∧
     gh' = gh.addH (frame / g.hugeFrames) (2 ^ (order - g.hugeOrder)) ∧
     ∀ x, inBlockF (frame / g.hugeFrames) (2 ^ (order - g.hugeOrder)) x = true → gh.ownH x = false
 
@@ -60,6 +61,17 @@ theorem huge_aligned_fits (okg : GeomOk g) (f order : Nat) (ho : g.hugeOrder ≤
   have : 2 ^ (order - g.hugeOrder) * (r + 1) ≤ 2 ^ (order - g.hugeOrder) * 2 ^ (K - (order - g.hugeOrder)) := Nat.mul_le_mul_left _ this
   rw [Nat.mul_add, Nat.mul_one] at this; exact this
 
+theorem huge_aligned_div (okg : GeomOk g) (f order : Nat) (ho : g.hugeOrder ≤ order) (hal : f % 2 ^ order = 0) :
+    (f / g.hugeFrames) % 2 ^ (order - g.hugeOrder) = 0 := by
+  have hsplit : 2 ^ order = 2 ^ (order - g.hugeOrder) * g.hugeFrames := by
+    show _ = _ * 2 ^ g.hugeOrder
+    rw [← Nat.pow_add]; congr 1; omega
+  obtain ⟨z, hz⟩ := Nat.dvd_of_mod_eq_zero hal
+  have hf : f = (2 ^ (order - g.hugeOrder) * z) * g.hugeFrames := by
+    rw [hz, hsplit, Nat.mul_assoc, Nat.mul_comm g.hugeFrames z, ← Nat.mul_assoc]
+  have hdiv : f / g.hugeFrames = 2 ^ (order - g.hugeOrder) * z := by rw [hf]; exact Nat.mul_div_cancel _ okg.hf_pos
+  rw [hdiv]; exact Nat.mul_mod_right _ _
+
 /-- **`Lower::get` with any arguments the upper level passes** -/
 theorem lowerGet_L (ok : GeomOk16 g) (gh : Gh) (start order : Nat) (frame : Option Nat) (hord : order ≤ g.treeOrder)
     (hal : ∀ f, frame = some f → f % 2 ^ order = 0) :
@@ -84,7 +96,7 @@ theorem lowerGet_L (ok : GeomOk16 g) (gh : Gh) (start order : Nat) (frame : Opti
       cases r with
       | ok u =>
         show GotBlock g gh order f gh1
-        unfold GotBlock; rw [if_neg ho]; exact ⟨h1, h2, h3.1, h3.2⟩
+        unfold GotBlock; rw [if_neg ho]; exact ⟨⟨h1, huge_aligned_div okg f order (by omega) hal'⟩, h2, h3.1, h3.2⟩
       | error e => exact h3.2
   | none =>
     by_cases ho : order < g.hugeOrder
